@@ -55,7 +55,13 @@ fn hex(bs: &[u8]) -> String {
 /// structured corruption of a valid stream produced by the crate's own serializer
 fn corrupt(r: &mut Rng, bytes: &mut Vec<u8>) -> &'static str {
     let n = bytes.len();
-    let ncont = if n >= 8 { u32::from_le_bytes([bytes[4], bytes[5], bytes[6], bytes[7]]) as usize } else { 0 };
+    // the count is read back from the (possibly already corrupted: arm 5, 10) header; clamp it to the descriptors that
+    // fit, otherwise arms 2/3 index past the end (seed 2 of the quick tier hit that)
+    let ncont = if n >= 8 {
+        (u32::from_le_bytes([bytes[4], bytes[5], bytes[6], bytes[7]]) as usize).min((n - 8) / 8)
+    } else {
+        0
+    };
     let payload_start = 8 + 8 * ncont;
     match r.below(12) {
         0 if n > payload_start + 4 => {
